@@ -93,33 +93,175 @@ Definition del1 (e : option entry) (d : Z) : option (option entry) :=
 Lemma clamp_ok : forall t, ttl_ok t -> clamp_ttl t = t.
 Proof. intros t [H1 H2]. unfold clamp_ttl. destruct (t >? 2147483647) eqn:E; [|reflexivity]. apply Z.gtb_lt in E. lia. Qed.
 
-Definition plain (r : rr) : Prop :=
+(* plain without the restriction on the node kind *)
+Definition plain_g (r : rr) : Prop :=
   r_class r = cIN /\ r_type r <> tSOA /\ 0 <= r_name r /\ ttl_ok (r_ttl r) /\ is_singleton (r_type r) = false.
 
-Lemma t_add_single : forall z r, plain r ->
+Definition plain (r : rr) : Prop :=
+  r_class r = cIN /\ r_type r <> tSOA /\ 0 <= r_name r /\ ttl_ok (r_ttl r) /\ is_singleton (r_type r) = false /\
+  kind_of (r_type r) (r_covers r) <> 2.
+
+(* ---- dns/node.py: CNAME and other data ---- *)
+(* storing an rdataset under k drops nothing *)
+Definition addable (z : zone) (k : key) : Prop := forall k', look z k' <> None -> conflicts k k' = false.
+(* no node of z holds both CNAME-kind and REGULAR rdatasets *)
+Definition consistent (z : zone) : Prop :=
+  forall k k', look z k <> None -> look z k' <> None -> conflicts k k' = false.
+(* z has no CNAME-kind rdataset at all *)
+Definition quiet (z : zone) : Prop := forall k, look z k <> None -> key_kind k <> 2.
+
+Lemma in_look_some : forall z k e, In (k, e) z -> look z k <> None.
+Proof.
+  induction z as [|[k0 e0] r IH]; intros k e Hin; [destruct Hin|]. cbn [look].
+  destruct (key_eqb k k0) eqn:E; [discriminate|]. destruct Hin as [H|H]; [|eapply IH; exact H].
+  inversion H; subst. rewrite key_eqb_refl in E. discriminate.
+Qed.
+
+Lemma filter_all : forall {A} (f : A -> bool) l, (forall x, In x l -> f x = true) -> filter f l = l.
+Proof.
+  induction l as [|a l IH]; intros H; cbn [filter]; [reflexivity|].
+  rewrite (H a (or_introl eq_refl)). f_equal. apply IH. intros x Hx. apply H. right; exact Hx.
+Qed.
+
+Lemma node_clean_id : forall z k, addable z k -> node_clean k z = z.
+Proof.
+  intros z k H. unfold node_clean. apply filter_all. intros [k' e] Hin. cbn [fst].
+  rewrite (H k' (in_look_some _ _ _ Hin)). reflexivity.
+Qed.
+
+Lemma node_put_id : forall z k e, addable z k -> node_put k e z = zput k e z.
+Proof. intros z k e H. unfold node_put. rewrite (node_clean_id _ _ H). reflexivity. Qed.
+
+Lemma conflicts_kind : forall k k', key_kind k <> 2 -> key_kind k' <> 2 -> conflicts k k' = false.
+Proof.
+  intros k k' H1 H2. unfold conflicts. apply Z.eqb_neq in H1, H2. rewrite H1, H2.
+  rewrite andb_false_r. cbn. apply andb_false_r.
+Qed.
+
+Lemma conflicts_sym : forall k k', conflicts k k' = conflicts k' k.
+Proof.
+  intros k k'. unfold conflicts. rewrite (Z.eqb_sym (name_of_key k)). f_equal.
+  rewrite orb_comm. f_equal; apply andb_comm.
+Qed.
+
+Lemma conflicts_refl : forall k, conflicts k k = false.
+Proof.
+  intros k. unfold conflicts. destruct (key_kind k =? 2) eqn:E2; destruct (key_kind k =? 0) eqn:E0;
+    rewrite ?andb_false_r; try reflexivity.
+  apply Z.eqb_eq in E2, E0. congruence.
+Qed.
+
+Lemma quiet_addable : forall z k, quiet z -> key_kind k <> 2 -> addable z k.
+Proof. intros z k Hq Hk k' Hl. apply conflicts_kind; [exact Hk|apply Hq, Hl]. Qed.
+
+Lemma quiet_consistent : forall z, quiet z -> consistent z.
+Proof. intros z Hq k k' H1 H2. apply conflicts_kind; apply Hq; assumption. Qed.
+
+Lemma consistent_addable : forall z k, consistent z -> look z k <> None -> addable z k.
+Proof. intros z k Hc Hk k' Hk'. apply Hc; assumption. Qed.
+
+Lemma quiet_nil : quiet [].
+Proof. intros k H. exfalso. apply H. reflexivity. Qed.
+
+Lemma quiet_zeq : forall a b, zeq a b -> quiet b -> quiet a.
+Proof. intros a b H Hq k Hl. apply Hq. rewrite <- H. exact Hl. Qed.
+
+Lemma quiet_zput : forall z k e, quiet z -> key_kind k <> 2 -> quiet (zput k e z).
+Proof.
+  intros z k e Hq Hk k' Hl. rewrite look_zput in Hl. destruct (key_eqb k' k) eqn:E.
+  - apply key_eqb_eq in E. subst. exact Hk.
+  - apply Hq, Hl.
+Qed.
+
+Lemma quiet_zremove : forall z k, quiet z -> quiet (zremove k z).
+Proof.
+  intros z k Hq k' Hl. rewrite look_zremove in Hl. destruct (key_eqb k' k); [exfalso; apply Hl; reflexivity|].
+  apply Hq, Hl.
+Qed.
+
+Lemma quiet_zset : forall z k oe, quiet z -> look z k <> None -> quiet (zset k oe z).
+Proof.
+  intros z k [e|] Hq Hk; cbn [zset]; [|apply quiet_zremove, Hq].
+  apply quiet_zput; [exact Hq|apply Hq, Hk].
+Qed.
+
+Lemma rkey_kind : forall r, key_kind (rkey r) = kind_of (r_type r) (r_covers r).
+Proof. reflexivity. Qed.
+
+Lemma soakey_kind : key_kind soakey = 0.
+Proof. reflexivity. Qed.
+
+(* the general form: the record may be of any kind as long as storing it drops nothing *)
+Lemma t_add_single_g : forall z r, plain_g r -> addable z (rkey r) ->
   t_add false z (single r) = Ok (zput (rkey r) (add1 (look z (rkey r)) (r_ttl r) (r_data r)) z).
 Proof.
-  intros z r (Hc & Ht & Hn & Httl & Hsg). unfold t_add, single, skey. cbn [s_class s_type s_name s_ttl s_data s_covers].
+  intros z r (Hc & Ht & Hn & Httl & Hsg) Ha. unfold t_add, single, skey. cbn [s_class s_type s_name s_ttl s_data s_covers].
   rewrite Hc. cbn [Z.eqb cIN Pos.eqb negb].
   apply Z.eqb_neq in Ht. rewrite Ht. cbn [andb].
-  rewrite (clamp_ok _ Httl). unfold rkey, add1.
+  rewrite (clamp_ok _ Httl). unfold rkey, add1. rewrite (node_put_id _ _ _ Ha).
   destruct (look z (r_name r, r_type r, r_covers r)) as [[ettl erds]|]; [|reflexivity].
   cbn [fold_left]. rewrite (rds_add_plain _ _ _ Hsg). reflexivity.
 Qed.
 
-Lemma t_del_single : forall z r, r_class r = cIN ->
+Lemma plain_plain_g : forall r, plain r -> plain_g r.
+Proof. intros r (Hc & Ht & Hn & Httl & Hsg & _). repeat split; try assumption; apply Httl. Qed.
+
+Lemma t_add_single : forall z r, plain r -> quiet z ->
+  t_add false z (single r) = Ok (zput (rkey r) (add1 (look z (rkey r)) (r_ttl r) (r_data r)) z).
+Proof.
+  intros z r Hp Hq. apply t_add_single_g; [apply plain_plain_g, Hp|].
+  apply quiet_addable; [exact Hq|]. rewrite rkey_kind. apply Hp.
+Qed.
+
+Lemma t_add_soa : forall tz v, ttl_ok (v_ttl v) -> quiet tz ->
+  t_add true tz (single (soa_rr v)) = Ok (zput soakey (v_ttl v, [v_soa v]) tz).
+Proof.
+  intros tz v Httl Hq. unfold t_add, single, soa_rr, skey.
+  cbn [s_class s_type s_name s_ttl s_data s_covers r_class r_type r_name r_ttl r_data r_covers].
+  rewrite (clamp_ok _ Httl). change (origin, tSOA, 0) with soakey.
+  rewrite node_put_id by (apply quiet_addable; [exact Hq|discriminate]). reflexivity.
+Qed.
+
+(* every RRset of a well-formed zone is of REGULAR or NEUTRAL kind *)
+Lemma rest_wf_quiet : forall z, rest_wf z -> quiet z.
+Proof.
+  intros z [_ Hf] k Hl. destruct (look z k) as [e|] eqn:E; [|congruence].
+  assert (Hin : In (k, e) z).
+  { clear - E. induction z as [|[k0 e0] r IH]; cbn [look] in E; [discriminate|].
+    destruct (key_eqb k k0) eqn:K; [apply key_eqb_eq in K; subst; inversion E; left; reflexivity|right; apply IH, E]. }
+  rewrite Forall_forall in Hf. apply Hf in Hin. destruct k as [[n t] c], e as [ttl ds]. cbn in Hin. cbn. apply Hin.
+Qed.
+
+Lemma agree_quiet : forall a tz, rest_wf a -> (forall k, k <> soakey -> look tz k = look a k) -> quiet tz.
+Proof.
+  intros a tz Ha Hz k Hl. destruct (key_eqb k soakey) eqn:E.
+  - apply key_eqb_eq in E. subst. discriminate.
+  - apply key_eqb_neq in E. rewrite (Hz k E) in Hl. apply (rest_wf_quiet a Ha), Hl.
+Qed.
+
+Lemma zone_of_quiet : forall v, version_wf v -> quiet (zone_of v).
+Proof.
+  intros v [_ Hr]. apply (agree_quiet (v_rest v)); [exact Hr|].
+  intros k Hk. unfold zone_of. cbn [look]. apply key_eqb_neq in Hk. rewrite Hk. reflexivity.
+Qed.
+
+Lemma zeq_zone_of_quiet : forall z v, version_wf v -> zeq z (zone_of v) -> quiet z.
+Proof. intros z v Hv Hz. apply (quiet_zeq _ _ Hz), zone_of_quiet, Hv. Qed.
+
+Lemma t_del_single : forall z r, r_class r = cIN -> consistent z ->
   t_delete_exact z (single r) =
   match del1 (look z (rkey r)) (r_data r) with
   | Some oe => Ok (zset (rkey r) oe z)
   | None => Lib eDeleteNotExact
   end.
 Proof.
-  intros z r Hc. unfold t_delete_exact, single, skey. cbn [s_class s_type s_name s_ttl s_data s_covers].
+  intros z r Hc Hcons. unfold t_delete_exact, single, skey. cbn [s_class s_type s_name s_ttl s_data s_covers].
   rewrite Hc. cbn [Z.eqb cIN Pos.eqb negb]. unfold rkey, del1.
-  destruct (look z (r_name r, r_type r, r_covers r)) as [[ettl erds]|]; [|reflexivity].
+  destruct (look z (r_name r, r_type r, r_covers r)) as [[ettl erds]|] eqn:El; [|reflexivity].
   destruct (mem (r_data r) erds) eqn:Hm.
   - rewrite inter_one_present by (apply mem_In; exact Hm). cbn [negb].
-    unfold norm, zset. destruct (diff erds [r_data r]); reflexivity.
+    unfold norm, zset. destruct (diff erds [r_data r]); [reflexivity|].
+    rewrite node_put_id by (apply consistent_addable; [exact Hcons|rewrite El; discriminate]). reflexivity.
   - rewrite inter_one_absent by (apply mem_false; exact Hm). reflexivity.
 Qed.
 
